@@ -16,8 +16,10 @@ Part B (helpers).  ``isPath``, ``urlnormalize``, ``urldefrag``,
 bound over {a C : / \\ # . f i l e}, against ``ref/refurl.py``.
 """
 
+import io
 import itertools
 import os
+import shutil
 from xml.sax.saxutils import quoteattr
 
 from ..mon import outcome
@@ -1206,6 +1208,90 @@ def run_loader_reuse(ctx, ZConfig, rng, n):
     shutil.rmtree(root, ignore_errors=True)
 
 
+DECOY_SCHEMA = ("<schema><sectiontype name='s'>"
+                "<multikey name='k' attribute='k'/></sectiontype>"
+                "<multikey name='k' attribute='k'/>"
+                "<multisection type='s' name='*' attribute='ss'/></schema>")
+# (include argument, literal file name, files that a wildcard / fallback
+# reading of the argument would pick up instead)
+GLOBLIKE = [("x[1].conf", ["x1.conf"]), ("[ab].conf", ["a.conf", "b.conf"]),
+            ("s*.conf", ["sx.conf", "s.conf"]), ("q[!z].conf", ["qa.conf"]),
+            ("{a,b}.conf", ["a.conf", "b.conf"]), ("~.conf", []),
+            ("$$HOME.conf", []), ("a[.conf", []), ("d[0-9]/f.conf",
+                                                   ["d1/f.conf"])]
+
+
+def run_decoys(ctx, ZConfig, n):
+    """References name one resource: the file of exactly that name beside
+    the resource that holds the reference - not files a wildcard reading
+    of the name would match, and not a file of the same relative name in
+    the working directory (or anywhere else) when the named one is
+    missing."""
+    from urllib.request import pathname2url
+    res = ctx.res
+    rng = ctx.rng("decoys", n)
+    world = os.path.join(os.path.realpath(ctx.tmp), "wd %d" % n)
+    top = os.path.join(world, rng.choice(["top dir", "t", "T é"]))
+    sub = os.path.join(top, rng.choice(["sub dir", "s"]))
+    other = os.path.join(world, "other")
+    for d in (sub, other):
+        os.makedirs(d, exist_ok=True)
+    schema = ZConfig.loadSchemaFile(io.StringIO(DECOY_SCHEMA))
+    kind = ["glob", "missing", "present"][n % 3]
+    if kind == "glob":
+        arg, decoys = GLOBLIKE[n // 3 % len(GLOBLIKE)]
+        lit = arg.replace("$$", "$")
+        os.makedirs(os.path.dirname(os.path.join(sub, lit)), exist_ok=True)
+        _write(os.path.join(sub, lit), "k literal\n")
+        for dn in decoys:
+            for base in (sub, top, other):
+                os.makedirs(os.path.dirname(os.path.join(base, dn)),
+                            exist_ok=True)
+                _write(os.path.join(base, dn), "k decoy\n")
+        _write(os.path.join(sub, "mid.conf"),
+               "k mid\n%%include %s\n" % arg)
+        want = ("ok", ["top", "mid", "literal"])
+    else:
+        leaf = rng.choice(["leaf.conf", "l f.conf", "x/leaf.conf"])
+        for base in (top, other, world):
+            os.makedirs(os.path.dirname(os.path.join(base, leaf)),
+                        exist_ok=True)
+            _write(os.path.join(base, leaf), "k decoy\n")
+        if kind == "present":
+            os.makedirs(os.path.dirname(os.path.join(sub, leaf)),
+                        exist_ok=True)
+            _write(os.path.join(sub, leaf), "k leaf\n")
+            want = ("ok", ["top", "mid", "leaf"])
+        else:
+            want = ("reject",)
+        _write(os.path.join(sub, "mid.conf"),
+               "k mid\n%%include %s\n" % leaf)
+    main = os.path.join(top, "top.conf")
+    _write(main, "k top\n%%include %s/mid.conf\n" % os.path.basename(sub))
+    case = {"op": "decoys", "n": n}
+    for cwd in (top, other, world, sub):
+        rel = os.path.relpath(main, cwd)
+        for entry, spelling in (("abs", main), ("rel", rel),
+                                ("url", "file://" + pathname2url(main)),
+                                ("fobj-abs", main), ("fobj-rel", rel)):
+            with Cwd(cwd):
+                o = do_load(ZConfig, "config", entry, spelling, schema)
+            res.evaluations += 1
+            res.count("decoy_loads")
+            got = ("ok", list(o[1].k)) if o[0] == "ok" else \
+                ("reject",) if o[1] == "config" else tuple(o)
+            res.sig("decoys|%s|%s|%s" % (kind, entry, got[0]))
+            if got != want:
+                res.violate(
+                    "reference-read-as-something-else", case,
+                    list(want), list(got),
+                    detail="%s: entry=%s cwd=%s mid.conf=%r"
+                    % (kind, entry, os.path.relpath(cwd, world),
+                       open(os.path.join(sub, "mid.conf")).read()),
+                    vsig="decoys|%s|%s|%s" % (kind, entry, got[0]))
+    shutil.rmtree(world, ignore_errors=True)
+
+
 def install_inner_load(ctx, ZConfig):
     """What the top schema's key type does on every key line: load a
     little configuration with an %include of its own from a directory of
@@ -1244,6 +1330,8 @@ def run_shard(ctx):
             run_layout(ctx, ZConfig, model, n)
             if n % 3 == 0:
                 run_loader_reuse(ctx, ZConfig, rng, n)
+        for n in range(ctx.shard, 54 if ctx.quick else 540, ctx.nshards):
+            run_decoys(ctx, ZConfig, n)
         H = Helpers(ZConfig)
         bound = BOUND[ctx.tier]
         # base URLs that are built, used once and dropped, over and over:
@@ -1310,6 +1398,9 @@ def finalize(m, tier):
 
 
 def replay(ctx, case):
+    if case.get("op") == "decoys":
+        import ZConfig
+        return run_decoys(ctx, ZConfig, case["n"])
     import ZConfig
     cwd0 = os.getcwd()
     try:
